@@ -39,7 +39,10 @@ def load_catalogue():
             if mf.exists() and pf.exists():
                 m = json.loads(mf.read_text())
                 pid = m["breaks_property"]
-                cat.append({"id": m["id"], "kind": "break", "props": [pid], "edits": [], "patch": str(pf), "rules": {pid: m.get("caught_by_rules_of_target_property", [])}, "canary": False, "note": m.get("change", "")})
+                # a seeded defect the target property's check does not decide (its restructuring is outside what the rules
+                # model): recorded as `undecided` - the check must end as an analysis error there, never as a pass
+                kind = "undecided" if m.get("target_verdict") == "analysis-error" else "break"
+                cat.append({"id": m["id"], "kind": kind, "props": [pid], "edits": [], "patch": str(pf), "rules": {pid: m.get("caught_by_rules_of_target_property", [])}, "canary": False, "note": m.get("change", "")})
     vd = VERIF / "variants"
     if vd.is_dir():
         for d in sorted(vd.iterdir()):
@@ -54,6 +57,13 @@ def load_catalogue():
             pf = d / "patch.diff"
             if pf.exists():
                 cat.append({"id": f"refactor-{d.name}", "kind": "preserve", "props": [], "edits": [], "patch": str(pf), "rules": {}, "canary": False, "note": "behaviour-preserving refactoring written by an independent sub-agent"})
+    pd = VERIF / "refactors_pending"
+    if pd.is_dir():
+        for d in sorted(pd.iterdir()):
+            pf = d / "patch.diff"
+            if pf.exists():
+                # behaviour-preserving, but outside what the rules model: analysis errors are expected, a refutation never
+                cat.append({"id": f"unseen-{d.name}", "kind": "unseen", "props": [], "edits": [], "patch": str(pf), "rules": {}, "canary": False, "note": "behaviour-preserving refactoring the analysis does not see through (analysis errors only)"})
     return cat
 
 
@@ -110,6 +120,10 @@ def evaluate(mut: dict, prop: str, code: int, out: str) -> tuple[bool, str]:
         if code == 0:
             return True, "silent"
         return False, f"exit {code} on a behaviour-preserving variant: {sorted(rules_reported(out)) or out[-300:]}"
+    if mut["kind"] == "unseen":
+        return (code != 1), ("no refutation" if code != 1 else f"exit 1 on a behaviour-preserving variant: {sorted(rules_reported(out))}")
+    if mut["kind"] == "undecided":
+        return (code != 0 or prop not in mut["props"]), ("not passed" if code != 0 else "passed (exit 0) although the property is broken")
     if code == 1:
         want = mut.get("rules", {}).get(prop)
         got = rules_reported(out)
